@@ -341,15 +341,20 @@ def r13c(R):
     rcfg = A.cfg(rm)
     dels = [n for n in rcfg.nodes if n.kind == 'stmt' and isinstance(n.ast, ast.Delete)]
     tests = [n for n in rcfg.nodes if n.kind == 'cond' and 'is not None' in norm(n.ast)]
+    rpos = [norm(n.targets[0]) for n in walk_own(rm.node)
+            if isinstance(n, ast.Assign) and isinstance(n.value, ast.Call)
+            and 'SortedList._index_of' in A.callee_names(rm, n.value)]
     R.check(rm, 'remove(): delete only the found position',
-            len(dels) == 1 and bool(tests) and norm(dels[0].ast.targets[0]) == 'self[pos]',
+            len(dels) == 1 and bool(tests) and bool(rpos)
+            and norm(dels[0].ast.targets[0]) == 'self[%s]' % rpos[0],
             'SortedList.remove deletes something other than the found element '
             'or raises for an absent value')
     io = sl.methods['_index_of']
     R.check(io, '_index_of uses bisect_left and verifies equality',
             any(norm(c.func) == 'bisect.bisect_left' for c in A.calls_in(io))
             and any(isinstance(n, ast.Compare) and isinstance(n.ops[0], ast.Eq)
-                    and 'self[pos]' in norm(n) for n in walk_own(io.node)),
+                    and 'self[' in norm(n) and io.params[1] in norm(n)
+                    for n in walk_own(io.node)),
             '_index_of can report a position that does not hold the value')
     if n_users < 3:
         raise AnalysisError('getter users: only %d' % n_users)
@@ -369,12 +374,14 @@ def r13e(R):
     if len(tests) == 1:
         c = tests[0].ast
         l, r = norm(c.left), norm(c.comparators[0])
-        ok = (isinstance(c.ops[0], ast.Gt) and l.endswith('get_age()') and r == 'max_age') \
-            or (isinstance(c.ops[0], ast.Lt) and r.endswith('get_age()') and l == 'max_age')
-        # max_age comes from the settings
+        # the limit is the local that holds the light_gc_time setting
         src = [n for n in walk_own(gc.node) if isinstance(n, ast.Assign)
-               and norm(n.targets[0]) == 'max_age']
-        ok = ok and len(src) == 1 and "'light_gc_time'" in norm(src[0].value)
+               and isinstance(n.targets[0], ast.Name)
+               and "'light_gc_time'" in norm(n.value)]
+        lim = norm(src[0].targets[0]) if len(src) == 1 else None
+        ok = lim is not None and (
+            (isinstance(c.ops[0], ast.Gt) and l.endswith('get_age()') and r == lim)
+            or (isinstance(c.ops[0], ast.Lt) and r.endswith('get_age()') and l == lim))
     R.check(gc, tests[0].ast if tests else 'age test', ok,
             'expiry does not compare the light\'s age with the configured '
             'light_gc_time (age > max_age)')
